@@ -38,6 +38,17 @@ def obs_code(o):
         return 8
     if o.get("followup"):
         return 10
+    code = obs_code_single(o)
+    if code in (0, 1, 2):
+        # a history: the first later request that was not answered in an orderly way decides
+        for st in o.get("steps") or []:
+            k = obs_code_single(st)
+            if k not in (0, 1, 2):
+                return k
+    return code
+
+
+def obs_code_single(o):
     if o["outcome"] == "crash":
         return 3
     if o["outcome"] == "hang":
@@ -312,6 +323,97 @@ def eval_pfcases(ck, name, cases):
     return {"P": ints(mp.group(1)), "M": ints(mv.group(1)), "V": ints(mv.group(2))}, out
 
 
+# ------------------------------------------------------------------------------ histories through StableSqlxDBWrapper (model/ReadPool.v)
+PLHEADER = ("From Coq Require Import List ZArith Bool.\nFrom Qryn Require Import model.ReadPool.\n"
+            "Import ListNotations.\nOpen Scope Z_scope.\n")
+PLEV = {"ok": "EvOk", "gone": "EvOk", "rowsfail": "EvOk", "dberr": "EvDbErr", "stall": "EvGaveUp"}
+BAD_CODES = (3, 4, 5, 6, 7, 10)
+
+
+def is_pool(c):
+    return bool(c.get("model")) and c["model"].get("ep") == "pool"
+
+
+def pool_step_obs(c):
+    """(class code, pool rebuilds) per answered request of the history; a healthy probe that is not served after the last
+    request counts against the last request"""
+    o = c["obs"]
+    res = [(obs_code_single(x), x.get("rebuilds", 0)) for x in [o] + (o.get("steps") or [])]
+    if o.get("followup") and res:
+        res[-1] = (10, res[-1][1])
+    return res
+
+
+def plcase_to_coq(c):
+    return "mkPlC %d %s %s" % (c["id"], coq_list([PLEV[e] for e in c["model"]["events"]]),
+                               coq_list(["(%d, %s)" % (k, coq_Z(r)) for k, r in pool_step_obs(c)]))
+
+
+def eval_plcases(ck, name, cases):
+    """model/ReadPool.v: predicted (answered, rebuilds) per request of each history, mismatches, spec violations"""
+    txt = (PLHEADER + "Definition cases : list pl_case := [\n  " + ";\n  ".join(plcase_to_coq(c) for c in cases) + "].\n"
+           "Definition P := Eval vm_compute in map (fun c => fold_right (fun (p : bool * Z) (acc : Z) => acc * 100 + (if fst p then 10 else 0) + snd p) 1 (pl_predicted c)) cases.\nPrint P.\n"
+           "Definition MV := Eval vm_compute in (pl_mismatches cases, pl_spec_violations cases).\nPrint MV.\n")
+    rc, out = ck.coq_eval(name, txt)
+    if rc != 0:
+        return None, out
+    flat = " ".join(out.split())
+    mp = re.search(r"\bP = (\[.*?\]|nil)\s*: list Z", flat)
+    mv = re.search(r"\bMV = \((\[.*?\]|nil), (\[.*?\]|nil)\)", flat)
+    if not mp or not mv:
+        return None, out
+    ints = lambda t: [int(x) for x in re.findall(r"-?\d+", t)]
+    return {"P": ints(mp.group(1)), "M": ints(mv.group(1)), "V": ints(mv.group(2))}, out
+
+
+def pool_pred_text(code):
+    """decode the per-request predictions packed by eval_plcases (first request = lowest two digits)"""
+    res = []
+    while code > 1:
+        d = code % 100
+        res.append("%s/%d rebuilds" % ("answered" if d >= 10 else "NOT answered", d % 10))
+        code //= 100
+    return res
+
+
+def history_steps(c):
+    top = {k: v for k, v in c.items() if k not in ("then", "obs", "model")}
+    return [top] + [dict(x) for x in (c.get("then") or [])]
+
+
+def history_of(steps, events, eps, cid, cls):
+    top = dict(steps[0])
+    top["then"] = [dict(x, id=cid) for x in steps[1:]]
+    top["id"] = cid
+    top["class"] = cls
+    top["model"] = {"ep": "pool", "events": list(events), "eps": list(eps)}
+    for x in [top] + top["then"]:
+        x.pop("obs", None)
+    return top
+
+
+def shrink_history(ck, c):
+    """delta-debugging over the requests of a violating history: drop one request at a time while it still violates"""
+    best = c
+    for rnd in range(5):
+        steps, evs, eps = history_steps(best), best["model"]["events"], best["model"].get("eps") or [""] * len(best["model"]["events"])
+        if len(steps) <= 1:
+            break
+        cands = []
+        for k in range(len(steps)):
+            cands.append(history_of(steps[:k] + steps[k + 1:], evs[:k] + evs[k + 1:], eps[:k] + eps[k + 1:], best["id"] * 10 + k, best["class"]))
+        pth = os.path.join(ck.work, "shrink_in_%d.jsonl" % rnd)
+        with open(pth, "w") as f:
+            for x in cands:
+                f.write(json.dumps(x) + "\n")
+        res = run_harness(ck, ["--cases", pth, "--batch", 1, "--par", 8], "shrink_%d" % rnd) or []
+        viol = [x for x in res if x.get("obs") and obs_code(x["obs"]) in BAD_CODES]
+        if not viol:
+            break
+        best = min(viol, key=lambda x: len(x.get("then") or []))
+    return best
+
+
 # ------------------------------------------------------------------------------ harness
 def run_harness(ck, args, tag):
     outp = os.path.join(ck.work, tag + ".jsonl")
@@ -327,7 +429,7 @@ def run_harness(ck, args, tag):
 def strip(c):
     """what goes into a replay file: the request, the script, the observation"""
     d = {k: c[k] for k in ("class", "method", "path", "params", "script") if k in c}
-    for k in ("accept", "body", "body_hex", "ctype", "model", "wait_ms", "abort_after", "tcp", "ws", "boot", "cold"):
+    for k in ("accept", "body", "body_hex", "ctype", "model", "wait_ms", "abort_after", "tcp", "ws", "boot", "cold", "hang_up", "then"):
         if k in c and c[k] not in (None, "", False, {}) :
             d[k] = c[k]
     d["id"] = c["id"]
@@ -336,7 +438,18 @@ def strip(c):
 
 
 def size_of(c):
+    if c.get("then"):
+        return 1000 * (1 + len(c["then"]))
     return sum(len(rs.get("rows") or []) for rs in c.get("script") or []) * 50 + len(json.dumps(c.get("params")))
+
+
+def faulted_case(c):
+    """mirrors faulted() of the harness: after such a request the process must answer a refused statement and the healthy probes"""
+    if c.get("abort_after") is not None or c.get("hang_up") or (c.get("boot") or {}).get("settings") or (c.get("boot") or {}).get("tables"):
+        return True
+    if any(rs.get("query_err") or rs.get("fail_after", -1) >= 0 or rs.get("stall") for rs in c.get("script") or []):
+        return True
+    return any(faulted_case(x) for x in c.get("then") or [])
 
 
 FINDING_SUBQUERY = "promql-subquery-steps-unbounded"
@@ -507,7 +620,8 @@ def run(ck):
     prom = [c for c in cases if is_prom(c)]
     profc = [c for c in cases if is_prof(c)]
     convc = [c for c in cases if is_conv(c)]
-    modelled = [c for c in cases if c.get("model") and not is_fwd(c) and not is_prom(c) and not is_prof(c) and not is_conv(c)]
+    poolc = [c for c in cases if is_pool(c)]
+    modelled = [c for c in cases if c.get("model") and not is_fwd(c) and not is_prom(c) and not is_prof(c) and not is_conv(c) and not is_pool(c)]
     testonly = [c for c in cases if not c.get("model")]
     known = ck.known_findings()
 
@@ -669,6 +783,38 @@ def run(ck):
                       "model_predicted": CODE_NAME.get(cpred[w["id"]]), "case": strip(w), "others": len(CM) - 1,
                       "broken": "correspondence ReadConv.range_outcome_ns vs reader router"}, no_input=True)
 
+    # ---- 4f. histories through the real StableSqlxDBWrapper, inside Coq: per request answered + pool rebuilds
+    lbyid = {c["id"]: c for c in poolc}
+    ljobs = [(k // 60, poolc[k:k + 60]) for k in range(0, len(poolc), 60)]
+    with ThreadPoolExecutor(max_workers=6) as ex:
+        lres = list(ex.map(lambda j: eval_plcases(ck, "C12_plcases_%d" % j[0], j[1]), ljobs))
+    LM, LV, LP = [], [], []
+    for r, out in lres:
+        if r is None:
+            ck.obligation("pool-history cases evaluated inside Coq", False, out[-1500:])
+            return
+        LM += r["M"]; LV += r["V"]; LP += r["P"]
+    lpred = dict(zip([c["id"] for c in poolc], LP))
+    lshow = lambda i: (i, lbyid[i]["model"]["events"], "model " + ", ".join(pool_pred_text(lpred[i])),
+                       "observed " + ", ".join("%s/%d rebuilds" % (CODE_NAME.get(k), r) for k, r in pool_step_obs(lbyid[i])))
+    ck.obligation("correspondence: pl_history (every request answered, one pool rebuild per failed statement) = what the real StableSqlxDBWrapper did on %d histories (%d requests) of healthy / refused / given-up-mid-statement / client-gone / connection-lost requests" % (
+        len(poolc), sum(len(c["model"]["events"]) for c in poolc)), not LM, "mismatching %s" % [lshow(i) for i in LM[:4]])
+    ck.obligation("spec oracle: every request of every history is answered, whatever the earlier requests of the same process met",
+                  not LV, "violating %s" % [lshow(i) for i in LV[:4]])
+    if LV:
+        w = min((lbyid[i] for i in LV), key=size_of)
+        w = shrink_history(ck, w)
+        so = pool_step_obs(w)
+        ck.violation({"property": "C12", "kind": "a request of a history is not answered in an orderly way: request %d of %d (%s) after the events %s" % (
+                          len(so), len(w["model"]["events"]), CODE_NAME.get(so[-1][0]), w["model"]["events"][:len(so)]),
+                      "model_predicted": "every request answered (theorem every_history_through_the_wrapper_is_answered)", "case": strip(w), "others": len(LV) - 1,
+                      "replay": "bin/check C12 --replay <this file>"})
+    elif LM:
+        w = min((lbyid[i] for i in LM), key=size_of)
+        ck.violation({"property": "C12", "kind": "model and implementation disagree on (answered, pool rebuilds) per request of a history; all answered",
+                      "model_predicted": pool_pred_text(lpred[w["id"]]), "case": strip(w), "others": len(LM) - 1,
+                      "broken": "correspondence ReadPool.pl_history vs dsn.StableSqlxDBWrapper"}, no_input=True)
+
     # ---- 5. test-only stream
     bad = []
     for c in testonly:
@@ -711,7 +857,17 @@ def run(ck):
                             "valid, mutated and random query bytes and random result sets. non-trivial = a SQL statement was issued (or the request did not end in a response); distinct by request+script content. ")
     ck.extra["input_distribution"] = hist
     ck.extra["observed_outcomes"] = outc
-    ck.extra["modelled_requests"] = len(modelled) + len(fwd) + len(prom) + len(profc) + len(convc)
+    ck.extra["modelled_requests"] = len(modelled) + len(fwd) + len(prom) + len(profc) + len(convc) + sum(len(c["model"]["events"]) for c in poolc)
+    ck.extra["pool_histories"] = len(poolc)
+    ck.extra["pool_history_lengths"] = {str(k): sum(1 for c in poolc if len(c["model"]["events"]) == k) for k in sorted({len(c["model"]["events"]) for c in poolc})}
+    ck.extra["pool_events"] = {}
+    for c in poolc:
+        for ep, ev in zip(c["model"].get("eps") or [], c["model"]["events"]):
+            ck.extra["pool_events"][ev] = ck.extra["pool_events"].get(ev, 0) + 1
+    ck.extra["pool_histories_with_gave_up_before_db_error"] = sum(1 for c in poolc if any(
+        e == "stall" and "dberr" in c["model"]["events"][k + 1:] for k, e in enumerate(c["model"]["events"])))
+    ck.extra["pool_rebuilds_observed"] = sum(r for c in poolc for _, r in pool_step_obs(c))
+    ck.extra["requests_followed_by_the_db_error_probe"] = sum(1 for c in cases if faulted_case(c))
     ck.extra["modelled_conversion_requests"] = len(convc)
     ck.extra["conversion_kinds"] = {}
     for c in convc:
